@@ -204,9 +204,14 @@ def _gates(tier):
     # chained tables themselves, the key table and the replay log listed in the deepest one
     tree3 = {"configuration": (BHV.T_NODE, {"a": (BHV.T_INT, 1), "n": (BHV.T_NODE, {"s": (BHV.T_STR, "x"), "b": (BHV.T_BOOL, True)}),
                                             "z": (BHV.T_UINT, 5)})}
+    # the same structures behind unallocated object-table slots (slots are not handed out front to back)
+    rawh = BHV.build(tree3, ntables=3, extra_replay_log=True, holes=2)
+    yield dict(name="hyperv.holes.key_table_signature[1]", kind="magic", raw=rawh, off=0x11000, width=2, open=open_hv)
+    yield dict(name="hyperv.holes.key_table_signature[2]", kind="magic", raw=rawh, off=0x12000, width=2, open=open_hv)
+    yield dict(name="hyperv.holes.replay_log_signature", kind="magic", raw=rawh, off=0x9000, width=4, open=open_hv)
     for depth, shape in ((1, "chain"), (2, "chain"), (3, "chain"), (2, "tail"), (3, "fan")):
         # 3 key tables + 1 replay log = 4 object entries dealt round-robin over depth+1 tables
-        raw = BHV.build(tree3, ntables=3, object_table_chain=depth, chain_shape=shape, extra_replay_log=True)
+        raw = BHV.build(tree3, ntables=3, object_table_chain=depth, chain_shape=shape, extra_replay_log=True, holes=depth % 2)
         deepest_kt = {1: 0x11000, 2: 0x12000, 3: 0x12000}[depth]
         tag = f"depth{depth}.{shape}"
         yield dict(name=f"hyperv.{tag}.object_table_signature", kind="magic", raw=raw, off=0x3000 + 0x1000 * (depth - 1), width=4,
